@@ -649,6 +649,25 @@ class Resolver:
                     vals = self.callable_values(arg, finfo, {})
                 else:
                     vals = self.callable_values(arg, g, {})
+                if not vals and isinstance(arg, ast.Name) and getattr(self, "_param_depth", 0) < 3:
+                    # the argument is itself a parameter of the caller (or of a function enclosing it): what is passed there, transitively
+                    owner = g
+                    while owner is not None:
+                        a_ = owner.node.args
+                        if arg.id in [x.arg for x in a_.posonlyargs + a_.args + a_.kwonlyargs]:
+                            break
+                        owner = getattr(owner, "outer", None)
+                    if owner is not None:
+                        self._in_param = False
+                        self._param_depth = getattr(self, "_param_depth", 0) + 1
+                        try:
+                            sub_vals = self._param_callables(arg.id, owner)
+                        finally:
+                            self._in_param = True
+                            self._param_depth -= 1
+                        if sub_vals:
+                            out.extend(sub_vals)
+                            continue
                 if not vals:
                     # a builtin or external function passed as a value (max, min, json.load, ...): no repo effects of its own
                     c = self.index.canon(arg, g.module if arg is not None and hasattr(g, "module") else finfo.module) if isinstance(arg, (ast.Name, ast.Attribute)) else None
@@ -869,7 +888,15 @@ class Resolver:
             else:
                 vals = self.callable_values(a, finfo, bindings)
                 if vals:
-                    new[pname] = tuple(dict.fromkeys((v[0], tuple(v[1])) for v in vals))
+                    items = []
+                    for v in vals:
+                        ex = tuple(v[1])
+                        if getattr(v[0], "outer", None) is not None:
+                            # a closure handed on as a value keeps seeing the bindings of the context it was created in
+                            have = {k for k, _v in ex}
+                            ex = ex + tuple((k, val) for k, val in bindings.items() if k not in have)
+                        items.append((v[0], ex))
+                    new[pname] = tuple(dict.fromkeys(items))
                     # partial(f, k=v) : remember constant keyword bindings of the partial for f itself
         # defaults that are constant bools
         return new
